@@ -1,7 +1,7 @@
 (* C16 - WorkerPool conserves tasks and always shuts down. Statements only.
    Model: Verif.C16_Pool.Model (interleaving system; `pinned` = code as pinned, `repaired` = code after the fix: commits). *)
 From Coq Require Import List ZArith Bool Permutation.
-From Verif.C16_Pool Require Import Model Inv Proofs Runs Refute.
+From Verif.C16_Pool Require Import Model Inv Proofs Runs Refute Live Term Group GroupProofs.
 Import ListNotations.
 
 (* Every variant (pinned and repaired), every worker count >= 1, cancel on/off, every task program (nested submits), every
@@ -30,14 +30,78 @@ Theorem C16_start_exclusive : forall c, 1 <= nw c -> forall scripts sch j e, let
   nth_error (exts s) j = Some e -> epc_ e = EStGo -> all_dead s = true.
 Proof. exact start_exclusive. Qed.
 
-(* Shutdown termination, full statement (NOT proved in general; see notes/C16.md): in the repaired model no reachable stuck
-   state has a stopped pool with a live worker or dispatcher, or an operation other than a ShutdownComplete.Wait on a
-   running pool that has not returned. *)
+(* Shutdown termination, full statement: in the repaired model (= the code in /repo) no reachable stuck state - for any
+   worker count, task program, scripts and schedule - has a stopped pool with a live worker or dispatcher, or anything in
+   flight, or an operation that has not returned other than a ShutdownComplete.Wait on a running pool. *)
 Definition C16_shutdown_terminates_full_statement : Prop :=
   forall n cn p scripts sch, 1 <= n -> let c := repaired n cn p in let s := run c sch (init c scripts) in
   stuckb c s = true ->
   (forall i, inflight i s = 0) /\ (running s = false -> all_dead s = true /\ disp s = DDead) /\
   (forall e, In e (exts s) -> (epc_ e = EIdle /\ ops e = []) \/ (running s = true /\ epc_ e = EIdle /\ exists r, ops e = OWaitShutdown :: r)).
+
+Theorem C16_shutdown_terminates : C16_shutdown_terminates_full_statement.
+Proof. unfold C16_shutdown_terminates_full_statement. intros n cn p scripts sch H. exact (shutdown_terminates n cn p H scripts sch). Qed.
+
+(* Progress form: in every reachable state of the repaired model in which the pool is stopped (Shutdown took effect) and
+   the shutdown is not complete - a worker is alive, or the dispatcher is, or the pending counter is not zero - some thread
+   has an enabled step: ShutdownComplete.Wait / WaitIsZero can not hang on a deadlock. *)
+Theorem C16_shutdown_progress : forall n cn p, 1 <= n -> forall scripts sch,
+  let c := repaired n cn p in let s := run c sch (init c scripts) in
+  running s = false -> (all_dead s = false \/ disp s <> DDead \/ pending s <> 0%Z) ->
+  exists t, In t (threads s) /\ enabledb c s t = true.
+Proof. exact shutdown_progress. Qed.
+
+(* non-vacuity: a run with nested submits, a concurrent submitter, Shutdown and both waits reaches a stuck state, which is
+   final as the theorem says (cancel-on-shutdown: 1 is cancelled); 115 steps into the same schedule the pool is stopped,
+   two workers and the dispatcher are alive, pending = 1 - the hypotheses of the progress theorem hold there. *)
+Definition cT := repaired 2 true [[1; 2]; []; []].
+Definition scriptsT := [[OStart; OSubmit 0; OSubmit 2; OShutdown; OWaitShutdown]; [OSubmit 1; OWaitZero]].
+Definition schT := concat (repeat [(TE 0, 0); (TD, 0); (TW 0, 1); (TW 1, 0); (TE 1, 0)] 40).
+Example C16_shutdown_terminates_nonvacuous :
+  let s := run cT schT (init cT scriptsT) in
+  stuckb cT s = true /\ running s = false /\ all_dead s = true /\ acc s = [0; 2; 1] /\ ran s = [2; 0] /\ canc s = [1] /\
+  exts s = [mkExt EIdle []; mkExt EIdle []].
+Proof. vm_compute. repeat split; reflexivity. Qed.
+Example C16_shutdown_progress_nonvacuous :
+  let s := run cT (firstn 115 schT) (init cT scriptsT) in
+  running s = false /\ all_dead s = false /\ disp s = DWaitZ /\ pending s = 1%Z /\ stuckb cT s = false.
+Proof. vm_compute. repeat split; reflexivity. Qed.
+
+(* PARTIAL (not proved): that every maximal run reaches that final state, i.e. absence of infinite runs after Shutdown under a
+   fair scheduler (a decreasing measure over the steps after `running` became false) - see notes/C16.md section 5. *)
+
+(* Group aggregation (runtime/workerpool/group.go; model Group.v): for EVERY history of NewGroup / CreateGroup / CreatePool
+   (nested groups, replaced pools) and pool-counter changes (Update by any delta, Set to any value), in the resulting
+   forest the PendingChildrenCounter of every group g
+   - is the number of direct children (pools and sub-groups) whose counter is not zero,
+   - is zero iff every pool below g, at any depth, has a zero PendingTasksCounter,
+   - so WaitChildren() returns exactly when all pools below are idle, and WaitParents() - which waits on Root(), the
+     top-most ancestor - exactly when all pools of the whole tree are idle. *)
+Theorem C16_group : forall ops f g, grun [] ops = Some f -> is_kind KGroup f g = true ->
+  gval f g = Z.of_nat (count_childnz g f) /\
+  (gval f g = 0%Z <-> forall i, is_kind KPool f i = true -> below f i g -> gval f i = 0%Z) /\
+  wait_children_returns f g = pools_idle_below f g /\
+  (let r := root_of f g in
+   is_kind KGroup f r = true /\ parent_of f r = None /\ (r = g \/ below f g r) /\
+   wait_parents_returns f g = pools_idle_below f r /\ (wait_parents_returns f g = true -> wait_children_returns f g = true)).
+Proof.
+  intros ops f g H K. split; [|split; [|split]].
+  - exact (group_counts_children ops f g H K).
+  - exact (group_aggregates ops f g H K).
+  - exact (wait_children_spec ops f g H K).
+  - exact (wait_parents_spec ops f g H K).
+Qed.
+
+(* non-vacuity: three levels (group 0 > group 1 > group 4), pools 2 (under 1), 3 (under 0), 5 (under 4); pool 3 went back to
+   zero, pools 2 and 5 are busy: counters 1 / 2 / 1, nobody's wait returns; after both are set to 0 everything is idle *)
+Definition histG := [GNewGroup; GCreateGroup 0; GCreatePool 1; GCreatePool 0; GUpdate 2 1; GUpdate 3 1; GUpdate 2 1; GUpdate 3 (-1);
+                     GCreateGroup 1; GCreatePool 4; GSet 5 3]%Z.
+Example C16_group_nonvacuous :
+  (exists f, grun [] histG = Some f /\ map nval f = [1; 2; 2; 0; 1; 3]%Z /\ is_kind KGroup f 4 = true /\
+             wait_children_returns f 0 = false /\ wait_parents_returns f 4 = false /\ root_of f 4 = 0) /\
+  (exists f, grun [] (histG ++ [GSet 5 0; GUpdate 2 (-2)])%Z = Some f /\ map nval f = [0; 0; 0; 0; 0; 0]%Z /\
+             wait_children_returns f 0 = true /\ wait_parents_returns f 4 = true).
+Proof. split; eexists; vm_compute; repeat split; reflexivity. Qed.
 
 (* The pinned code violates it: explicit schedules ending in stuck states (replayed on the pinned code with the verif hooks). *)
 Theorem C16_refuted_submit_race :
@@ -79,5 +143,8 @@ Print Assumptions C16_conservation_quiescent.
 Print Assumptions C16_cancel_only_if_enabled.
 Print Assumptions C16_no_run_after_complete.
 Print Assumptions C16_start_exclusive.
+Print Assumptions C16_shutdown_terminates.
+Print Assumptions C16_shutdown_progress.
+Print Assumptions C16_group.
 Print Assumptions C16_refuted_submit_race.
 Print Assumptions C16_refuted_lost_wakeup.
